@@ -65,3 +65,28 @@ Print Assumptions C02_example_crash.
 Theorem C02_example_finish : finish [D false true (Some (KCorrupt 5)) None] 40000 Complete = [D false true (Some KGood) None].
 Proof. exact ex_finish. Qed.
 Print Assumptions C02_example_finish.
+
+(* ---- full volumes (IsFull(): fresh <root>/full marker or too little free space) and the fallback loop of
+   PutBlock ---- *)
+(* a complete upload is acknowledged whenever some writable volume is not full, whichever volume the
+   round-robin picked first; by C02_put_ack_durable the block is then retrievable after a restart *)
+Theorem C02_put_some_free_acked : forall vs L,
+  (exists v, In v vs /\ d_ro v = false /\ d_full v = false) -> snd (put_prog vs L Complete) = true.
+Proof. exact put_some_free_acked. Qed.
+Print Assumptions C02_put_some_free_acked.
+
+(* when every writable volume is full (and no identical copy can be touched) the request is refused and no
+   step of the write path changes anything *)
+Theorem C02_put_all_full_refused : forall vs L,
+  (forall v, In v vs -> d_ro v = false -> d_full v = true) -> snd (compare_and_touch vs 0) = false ->
+  snd (put_prog vs L Complete) = false /\ inert (fst (put_prog vs L Complete)).
+Proof. exact put_all_full_refused. Qed.
+Print Assumptions C02_put_all_full_refused.
+
+(* regression witness about a VARIANT only (FullError from the round-robin volume taken as success):
+   acknowledged, nothing written, nothing to GET -- while the model acknowledges AND stores *)
+Theorem C02_variant_full_as_success_refuted :
+  exists vs L, snd (put_prog_fullok vs L) = true /\ get_block (apply_all L (fst (put_prog_fullok vs L)) vs) 404 = GErr 404 /\
+               snd (put_prog vs L Complete) = true /\ get_block (finish vs L Complete) 404 = GData.
+Proof. exact variant_full_as_success_refuted. Qed.
+Print Assumptions C02_variant_full_as_success_refuted.
